@@ -14,7 +14,7 @@ import re
 import subprocess
 
 from checks import frontend_common as fc
-from vf import build, express
+from vf import accprobe, build, express
 from vf.common import VERIF, sha
 
 DUMP = os.path.join(VERIF, "harness", "cpp", "dictdump.cc")
@@ -123,6 +123,7 @@ def run(ctx):
     if ctx.quick:
         cases = cases[::2][:10]
     n = dis = 0
+    nacc = [0]
     samples = []
 
     def one(a):
@@ -137,7 +138,32 @@ def run(ctx):
         p = subprocess.run([d], stdout=subprocess.PIPE, stderr=subprocess.PIPE, text=True, timeout=120)
         if p.returncode != 0:
             return i, c, txt, None, "dictdump rc=%s %s" % (p.returncode, p.stderr[-800:])
-        return i, c, txt, json.loads(p.stdout), ""
+        dump = json.loads(p.stdout)
+        # typed accessors and mutators of every explicit attribute (simple, enumeration and entity valued)
+        src, nacc = accprobe.program(c["schema"], c["order"])
+        pdir = os.path.join(build.WORK, "accprobe")
+        os.makedirs(pdir, exist_ok=True)
+        pf = os.path.join(pdir, "probe_%s.cc" % tag)
+        open(pf, "w").write(src)
+        try:
+            pd = build.link_driver("accprobe_" + tag, [pf], schema=s)
+        except Exception as ex:      # the probe uses only the generated public interface: not compiling is the generator's doing
+            dump["accessors"] = [{"ent": "-", "attr": "-", "kind": "probe-does-not-compile", "r1": False, "r2": False, "g1": False, "g2": False,
+                                  "why": str(ex)[-600:]}]
+            return i, c, txt, dump, ""
+        q = subprocess.run([pd], stdout=subprocess.PIPE, stderr=subprocess.PIPE, text=True, timeout=120)
+        acc = []
+        for ln in q.stdout.split("\n"):
+            if ln.strip():
+                try:
+                    acc.append(json.loads(ln))
+                except ValueError:
+                    acc.append({"ent": "-", "attr": "-", "kind": "unreadable-line", "r1": False, "r2": False, "g1": False, "g2": False, "why": ln[:200]})
+        if q.returncode != 0:
+            acc.append({"ent": "-", "attr": "-", "kind": "probe-died", "r1": False, "r2": False, "g1": False, "g2": False, "why": "rc=%s %s" % (q.returncode, q.stderr[-300:])})
+        dump["accessors"] = acc
+        dump["accessors_expected"] = nacc + 1
+        return i, c, txt, dump, ""
     with cf.ThreadPoolExecutor(max_workers=4) as ex:
         for i, c, txt, dump, err in ex.map(one, list(enumerate(cases))):
             n += 1
@@ -147,6 +173,18 @@ def run(ctx):
                 continue
             if not samples:
                 samples.append({"choice": c["choice"], "dictionary_entity": dump["entities"][0]})
+            nacc[0] += len(dump.get("accessors", []))
+            for a in dump.get("accessors", []):
+                if not (a["r1"] and a["r2"] and a["g1"] and a["g2"]):
+                    dis += 1
+                    what = "typed read-back" if not (a["r1"] and a["r2"]) else "generic view"
+                    ctx.violation("accessor|%s|%s|%s" % (a["kind"], what, a["attr"] if a["kind"].startswith(("simple", "enum", "entity")) else "-"),
+                                  "%s.%s (%s): the %s after the typed mutator is wrong (first value ok: %s, second: %s; generic view: %r, %r) %s" % (
+                                      a["ent"], a["attr"], a["kind"], what, a["r1"], a["r2"], a.get("s1"), a.get("s2"), a.get("why", "")),
+                                  {"choice": c["choice"], "input": txt, "record": a})
+            if len(dump.get("accessors", [])) < dump.get("accessors_expected", 0):
+                ctx.violation("accessor|missing-lines|" + key0, "the accessor probe printed %d of %d records" % (len(dump.get("accessors", [])), dump["accessors_expected"]),
+                              {"choice": c["choice"], "input": txt})
             for clause, msg in compare(c, dump):
                 dis += 1
                 devs = {d["name"]: d["dev"] for d in c["devtypes"]}
@@ -155,11 +193,11 @@ def run(ctx):
                 else:
                     key = "%s|%s" % (clause, key0)
                 ctx.violation(key, msg[:500], {"choice": c["choice"], "input": txt, "clause": clause})
-    cov = {"programs": n, "disagreements_checked": n * 12, "disagreements_found": dis, "samples": samples,
+    cov = {"programs": n, "accessor_records": nacc[0], "disagreements_checked": n * 12, "disagreements_found": dis, "samples": samples,
            "states": g.distinct, "evaluations": n, "distinct_nontrivial": n,
            "rule": "valid schema family of spec/Schema.tla (chains, fans, multiple supertypes, every attribute kind, "
                    "enum/select/simple/aggregate/renamed types, DERIVE/INVERSE); 12 dictionary clauses per schema"}
     return {"level": "translation_validation", "coverage": cov, "assumptions": [
         "type names are compared case-insensitively and without white space",
-        "the accessor/mutator clause is covered through the generic attribute list (name, owner and order), not by "
-        "calling every typed accessor"]}
+        "typed accessors / mutators are called for simple, enumeration and entity valued attributes (own and inherited); "
+        "aggregate and SELECT valued attributes are covered through the dictionary comparison and the round trip of C01"]}
